@@ -275,6 +275,60 @@ def sampleFromSeqs (degSeq : List Nat) (dimSeq : List (Nat × Nat)) (fd fm : Boo
   (matchSequences degSeq dimSeq fd fm t.picks).bind (fun st =>
     (sampleFromConfig st.cfg fixed none t).map (fun o => (st.flag, o)))
 
+/-! ## `sample(initial_hyg=...)` for node labels of ANY type
+
+Node labels are arbitrary hashable, mutually comparable Python objects (integers of any size, floats, strings,
+`Fraction`s, ...).  The only things the sampler does with them: look a label up in the encoder's classes
+(`transform`: its position = the internal id), index the classes with an id (`inverse_transform`), and use tuples of
+labels as dictionary keys when duplicates are merged.  The same code, for a label type `α` with decidable equality;
+`labels` = the encoder's classes (the order in which the encoder lists them is an input). -/
+section AnyLabels
+variable {α : Type} [DecidableEq α]
+
+/-- `mapping.inverse_transform` -/
+def relabelG (labels : List α) (e : Hye) : Option (List α) := e.mapM (fun i => labels[i]?)
+
+/-- `for edge, w in zip(hye_list, weights): hye_with_weights[edge] += w` with label tuples as keys -/
+def mergeDupG (l : List (List α × Nat)) : List (List α × Nat) :=
+  l.foldl (fun d (p : List α × Nat) => AL.set d p.1 ((AL.get? d p.1).getD 0 + p.2)) []
+
+def relabelAllG (labels : List α) (l : List (Hye × Nat)) : Option (List (List α × Nat)) :=
+  l.mapM (fun p => (relabelG labels p.1).map (fun e => (e, p.2)))
+
+def outputStageG (cfg : Config) (ws : List Nat) (labels : List α) : Option (List (List α × Nat)) :=
+  if ws.length = cfg.length then
+    (relabelAllG labels (dropZeros (cfg.map canon) ws)).map mergeDupG
+  else none
+
+def outputsOfG : List Config → List (List Nat) → List α → Option (List (List (List α × Nat)))
+  | [], _, _ => some []
+  | _ :: _, [], _ => none
+  | c :: cs, w :: ws, labels =>
+    (outputStageG c w labels).bind (fun o => (outputsOfG cs ws labels).map (fun r => o :: r))
+
+/-- the encoding of one hyperedge of the initial hypergraph, node by node: position of the label in the classes -/
+def transformG (labels : List α) (e : List α) : Option Hye :=
+  e.mapM (fun x => let i := labels.idxOf x; if i < labels.length then some i else none)
+
+/-- `sample(initial_hyg=...)`: encode, run the chain on the ids, decode every sample -/
+def sampleFromHygG (labels : List α) (edges : List (List α)) (t : OwnTape) :
+    Option (List (List (List α × Nat))) :=
+  (edges.mapM (transformG labels)).bind (fun cfg =>
+    (mcmcRoutine cfg [] t.burn t.thins).bind (fun ys =>
+      outputsOfG ys (t.quantiles.map truncWeights) labels))
+
+/-- a sample carried along a map of the labels -/
+def mapOut {β : Type} (f : α → β) (o : List (List α × Nat)) : List (List β × Nat) :=
+  o.map (fun p => (p.1.map f, p.2))
+
+/-- number of hyperedges of a listing that contain the label `x` (hyperedges are duplicate-free) -/
+def degOfG (x : α) (edges : List (List α)) : Nat := (edges.map (fun e => e.count x)).sum
+
+/-- number of hyperedges of size `s` -/
+def sizeCountG (s : Nat) (edges : List (List α)) : Nat := (edges.map List.length).count s
+
+end AnyLabels
+
 /-! ## seeds: which generator feeds which draw -/
 
 /-- what the inner `HyMMSBM` draws when nothing is given: degree sequence, size sequence, dyadic
